@@ -290,7 +290,8 @@ class WeakForms(_Simu):
 
         # end cases ----------------------------------------------------
 
-        return self.Results_Reshape_values(values, nodeValues)
+        # every result above is stored at nodes
+        return self.Results_Reshape_values(values, nodeValues, storedAtNodes=True)
 
     def Results_Iter_Summary(
         self,
